@@ -182,7 +182,7 @@ def generate(tier, rng):
              ('echo', ({'b': 1},), {}), ('echo', ({'a': 7},), {}), ('echo', ({},), {}), ('deco_xy', (1,), {}), ('deco_a', (), {'a': 2})]
     clients = [{'strict': True}, {'strict': False}, {'strict': True, 'error_cls': U.errclass_json(U.ClientBaseError)}]
     for (m, args, kwargs) in calls:
-        for cl in clients + [dict(clients[0], json_hooks=True)]:
+        for cl in clients + [dict(clients[0], json_hooks=True), dict(clients[0], retrying=True), dict(clients[1], retrying=True)]:
             for notation in SINGLE_NOTATIONS:
                 yield loop_case(notation, [spec(m, args, kwargs, notify=(notation == 'notify'))], cl)
     # id streams: increasing, decreasing (the order of the ids is not the order of the calls), random integers / strings
@@ -215,7 +215,7 @@ def generate(tier, rng):
     for n in (1, 2, 3):
         items = [spec(rng.choice(['echo', 'fail_rpc', 'nosuch', 'noargs']), (1,) if i % 2 else (), {}, notify=True) for i in range(n)]
         for notation in ('b_add', 'b_call', 'b_proxy'):
-            for cl in clients[:2]:
+            for cl in clients[:2] + [dict(clients[0], retrying=True)]:
                 yield loop_case(notation, items, cl)
 
 
@@ -384,6 +384,10 @@ def run_impl(c):
                     pyrandom.seed(g['seed'])
                 t = _Loop(c['server'], server_async, coro)
                 kw2 = dict(kw, **IC.client_kwargs(cl))
+                if cl.get('retrying'):
+                    # a retrying client whose listed code / exception never occurs here: everything as without a strategy
+                    from pjrpc.client import retry as _retry
+                    kw2['retry_strategy'] = _retry.RetryStrategy(backoff=_retry.PeriodicBackoff(attempts=2, interval=0.0), codes={2999}, exceptions={TimeoutError})
                 if cl.get('json_hooks'):
                     # the user's own codec hooks, each equivalent to the default it replaces
                     kw2.update(json_loader=S._hook_loads, json_dumper=S._hook_dumps, json_encoder=_ClientHookEncoder, json_decoder=S.HookDecoder)
